@@ -7,6 +7,11 @@ BASELINE_OFF = json.load(open('/root/.vp/BASELINE.json'))['cmd']
 
 # id -> (level, technique, level text, level_note, design_ref)
 CLAIMED = {
+ "C12": ("exploration",
+         "runtime monitor over the fake brokers' request journal and the wire tap: every request a Transport emits is matched to the metadata responses the pool had been served before the request's first byte (logical clock), and its receiver (dialled address) and version are checked against what those responses and the receiver's advertised version table designate",
+         "Scenarios with 1-5 brokers, random per-broker version tables (full, old, mixed, raised minimums, absent APIs), topics/partitions/leaders/coordinators/controller, and histories of leader moves, broker additions, removals and re-addressing, controller moves and topic creations interleaved (also concurrently) with requests of every routed kind: produce/fetch/list-offsets (split per leader), group and transaction APIs (coordinator lookup by key type), topic administration (controller), ListGroups fan-out, metadata (cache probes compared with the last served response restricted to the filter). Version = highest mutually supported, never outside the advertised range when ranges overlap; after a move requests must follow within one TTL + round trip (window verdicts only reported if a second run draws the same key).",
+         "trusted: the wire tap's logical timestamps; a served metadata response whose round trip took > 5 ms may have been dropped by the pool and is treated as 'possibly applied'; no designated broker (unknown topic, leader not in the broker list, metadata v0 controller) = anything goes, counted",
+         "DESIGN.md section 5 C12"),
  "C13": ("exploration",
          "runtime oracle: independent reference hashes/partitioners + sequential-law monitor + porcupine linearizability check of recorded concurrent Balance histories",
          "Every built-in balancer is executed on generated keys (all lengths 0..67, nil/empty, high-bit, long) x 33 partition counts and compared with independently written FNV-1a/CRC-32/murmur2 + Sarama/librdkafka/Java partitioner formulas; RoundRobin/LeastBytes are checked call by call against their sequential law and, under concurrency, by porcupine on recorded call/return histories. Held on the executions listed in the evidence; not a proof over all keys.",
@@ -52,6 +57,11 @@ CLAIMED = {
          "A real kafka.ConsumerGroup runs application loops with functions that return at once, on cancellation, late after cancellation or after k ms, under coordinator error codes and dropped connections on every group API, forced rebalances, evictions, topic growth under the partition watcher, slow applications (Start on an already ended generation) and Close at random points; checked: Next never returns a generation while a function of the previous one runs, contexts are done before the member re-joins, heartbeat rate bounds, LeaveGroup before Close returns, ErrGroupClosed afterwards, join back-off lower bound.",
          "trusted: fake coordinator; heartbeat rate and back-off are bounds that load can only lengthen; functions started after the following Next call are outside the claim",
          "DESIGN.md section 5 C15"),
+ "C04": ("exploration",
+         "runtime differential oracle against an independent schema-driven reference codec (39 APIs transcribed from the Kafka message definitions): (a) library-encoded bytes must be accepted by the strict reference decoder, decode to the same field values and re-encode byte-identically; (b) reference-encoded frames with unknown tagged fields at every level and a sentinel second frame must decode to the encoded values and consume exactly one frame; (c) decode(encode(v)) == v; a byte tap on the fake network checks every frame of real Conn / ConsumerGroup / Client traffic; the same values are run through a second binary built with -tags unsafe and -d=checkptr",
+         "325 (message type, version) pairs x 9 value-shape classes (zero, empty, max, min, varint-boundary lengths, nested, mixed, long strings/blobs), fields paired by name then position so that a swap of same-typed fields is visible; on the wire: size prefix == bytes that follow, api key, version within the advertised range (full, 0.10.1 floor, random and raised-minimum tables), correlation and client id, strict decode and byte-identical re-encode of every request body emitted by the hand-written Conn codec (Metadata, Produce, Fetch, ListOffsets, topics and group APIs) and by 38 Client methods over the Transport.",
+         "trusted: the reference schemas (hand-transcribed from the Kafka definitions), null == empty for schema-nullable positions where kafka-go can only write one of them (table c04NullExempt); strings are never longer than 32767 bytes; SASL frames are covered by C18, not tapped here",
+         "DESIGN.md section 5 C04"),
  "C05": ("exploration",
          "runtime differential oracle: produced bytes judged by the strict reference record decoder on the fake broker; reference-encoded layouts (formats 0/1/2, every codec, wrappers with relative offsets and gaps, control batches, flipped bits) decoded through Client.Fetch and Conn.ReadBatch and compared with ground truth; held-page hash monitor with poisoned page reuse",
          "Record lists (nil/empty/large keys and values, 0-5 headers, sub-millisecond, equal, decreasing and unset times) are produced through Writer, Client.Produce and Conn at produce v2-v8 with every codec and must be accepted by the reference decoder and equal what was submitted; reference-encoded fetch layouts must come back identical through both read paths, control and corrupt batches hidden by Client.Fetch; bytes handed out by Client.Fetch are hashed when handed out and before Close while 2-8 goroutines keep decoding (pages recycled, poisoned under the verif tag).",
